@@ -3044,6 +3044,21 @@ where
                     *coord += signed_perturbation * coord_scale;
                 }
 
+                // A perturbed point can leave the fundamental domain of a toroidal triangulation
+                // (e.g. a wrapped vertex lying on a face): wrap it again. No-op for Euclidean ones.
+                self.global_topology
+                    .model()
+                    .canonicalize_point_in_place(&mut perturbed_coords)
+                    .map_err(|error| {
+                        InsertionError::Construction(
+                            TriangulationConstructionError::GeometricDegeneracy {
+                                message: format!(
+                                    "Failed to canonicalize perturbed coordinates {perturbed_coords:?}: {error}"
+                                ),
+                            },
+                        )
+                    })?;
+
                 // Preserve the caller-provided vertex UUID across perturbation retries.
                 // This ensures the inserted vertex retains its original identity even if we have
                 // to retry with perturbed coordinates.
